@@ -221,3 +221,13 @@ def scribble(obj, depth=0, seen=None):
                 scribble(v, depth + 1, seen)
         except Exception:  # noqa: read-only slots / properties are not the caller's to edit
             pass
+
+
+def ipsc_frame(rng, burst33, slot_type, frame_type=0x1111, colour_code=1, timeslot=1, src=1, dst=2, seq=0, packet_type=0x41, call_type=0):
+    """a well-formed 72-octet Hytera IPSC frame around a 33-octet burst (layout of spec/IPSC.tla); starts with ZZZZ so that the
+    protocol detection of utils/parsing.py recognises it whatever the other octets are"""
+    from okdmr.dmrlib.utils.bits_bytes import byteswap_bytes
+    return (b"ZZZZ" + bytes([seq & 0xFF]) + rbytes(rng, 3) + bytes([packet_type]) + rbytes(rng, 7)
+            + (b"\x11\x11" if timeslot == 1 else b"\x22\x22") + slot_type.to_bytes(2, "little") + bytes([colour_code | colour_code << 4] * 2)
+            + frame_type.to_bytes(2, "little") + rbytes(rng, 2) + byteswap_bytes(bytes(burst33) + b"\x00") + rbytes(rng, 2) + bytes([call_type])
+            + (dst << 8).to_bytes(4, "little") + (src << 8).to_bytes(4, "little") + rbytes(rng, 1))
